@@ -62,7 +62,7 @@ func init() {
 		"between two controller decisions exactly one worker runs; goroutines woken by a real channel operation park at once (post-block yield)",
 		"exploration is seeded random sampling of schedules/faults: absence of a violation is evidence, not proof",
 	}
-	rdRule := "delivery history produced by a seeded fault pipeline (sender with jumps around window/word/half-space sizes, loss, duplication, delay/reordering, attacker replays, authentication failures); configuration swarm over window sizes and maxima. Non-trivial: >=1 replay attempt refused and >=3 numbers accepted; distinct = hash of (configuration, history). No interleaving is explored (sequential code)"
+	rdRule := "delivery history produced by a seeded fault pipeline (sender with jumps around window/word/half-space sizes and, for maxima >= 2^63, jumps around 2^63; loss, duplication, delay/reordering, attacker replays incl. numbers just behind/at/ahead of the highest number delivered so far, authentication failures); configuration swarm over window sizes and maxima. Non-trivial: >=1 replay attempt refused and >=3 numbers accepted; distinct = hash of (configuration, history). No interleaving is explored (sequential code)"
 	def("Z00", &propCfg{Dir: "zz", Pkgs: []string{"zzverif/probe"}, QuickS: 10,
 		Components: []string{"self-test of the instrumenter: sync.Cond, embedded mutexes, RWMutex.TryLock, context.AfterFunc, sync.Pool, method values"},
 		Rule:       "producer/consumer programs over a Cond-based queue and friends; no property of pion/transport"})
@@ -82,7 +82,7 @@ func init() {
 	def("C14", &propCfg{Pkgs: []string{"vnet"},
 		Components: []string{"real: vnet.DelayFilter (Run is a worker; arrivals through the in-package injector, forwards observed by the stamping sink NIC adaptor) and vnet.Router with MinDelay/MaxJitter between two real vnet hosts", "adaptor: sim/adaptors/vnet (sink NIC + injector, no logic of the code under test)"},
 		Assumptions: append([]string{"'eventually forwarded' is evaluated after 10 simulated minutes without new arrivals (all configured delays are <= 50 ms)"}, stdAssume...),
-		Rule: "delay in {0,1ns,1us,0.2ms,1ms,20ms,50ms}; 1-3 producers with arrival patterns (bursts, spacing = delay +-1ns, half/double delay); both timer-channel modes; router variant with jitter. Non-trivial: >=2 workers and >=1 context switch; distinct = schedule hash"})
+		Rule: "delay in {0,1ns,1us,0.2ms,1ms,20ms,50ms}; 1-3 producers with arrival patterns (bursts, spacing = delay +-1ns, half/double delay, occasionally floods of 65-300 back-to-back arrivals followed by silence); both timer-channel modes; router variant with jitter, chain of two delaying routers, router restart with datagrams waiting. Non-trivial: >=2 workers and >=1 context switch; distinct = schedule hash"})
 	def("C15", &propCfg{Pkgs: []string{"vnet"},
 		Components: []string{"real: vnet.TokenBucketFilter (its run goroutine is a worker), runtime Set(TBFRate/TBFMaxBurst)", "adaptor: sim/adaptors/vnet (sink NIC stamping at the instant of hand-over + injector)"},
 		Assumptions: append([]string{"across a run-time change the larger of the values in force during the interval is used (sound over-approximation)", "a datagram counts as discarded only if a later arrival was forwarded; queue occupancy at its arrival is over-approximated from stamps"}, stdAssume...),
@@ -94,12 +94,12 @@ func init() {
 	def("C10", &propCfg{
 		Components: []string{"real: packetio.Buffer, dpipe, udp listener connections (over the simnet UDP kernel stub), vnet.UDPConn (two hosts on one router), test.Bridge endpoint (with a ticker worker), deadline.Deadline", "stub: simnet in-memory UDP kernel under the udp package"},
 		Assumptions: append([]string{"'a read after the deadline passed must time out' is asserted only once the expiry has been observed (an earlier read timed out under the same setting) or the deadline was already past when set: a timer callback that has not run yet is a legitimate race", "liveness is evaluated at quiescence only"}, stdAssume...),
-		Rule: "per run one connection type; three workers: deadline setter (zero/past/near/far, SetReadDeadline or SetDeadline), reader (bounded reads with idle periods), writer (datagram arrivals), with sleeps equal to / around the deadline durations; both timer-channel modes. Non-trivial: >=2 workers and >=1 context switch; distinct = schedule hash"})
+		Rule: "per run one connection type; three workers: deadline setter (zero/past/near/far, the value of an earlier Set again, a fixed instant long ago; SetReadDeadline or SetDeadline), reader (bounded reads with idle periods), writer (datagram arrivals), with sleeps equal to / around the deadline durations; both timer-channel modes. Non-trivial: >=2 workers and >=1 context switch; distinct = schedule hash"})
 	def("C17", &propCfg{Pkgs: []string{"netctx", "connctx", "zzverif/simnet"},
 		Components: []string{"real: netctx.Conn, netctx.PacketConn, connctx.ConnCtx (their watcher goroutines are workers)", "stub: simnet stream/packet pipes with deadlines, partial writes, short reads, a ground-truth byte log and an injectable SetDeadline error"},
 		Assumptions: append([]string{"after an injected SetDeadline failure only 'the operation returns' is required for that run", "one reader and one writer worker per end, so the leftover-deadline check right after a return cannot race with the next operation of the same direction"}, stdAssume...),
-		Rule: "stream and packet flavours; per end a reader and a writer issuing <=4 operations each with contexts that are background, already cancelled, cancelled by a canceller worker after 0..1ms, or WithTimeout on the fake clock; pipe capacities 1..4096 (back-pressure, partial writes), short reads. Non-trivial: >=2 workers and >=1 context switch; distinct = schedule hash"})
-	udpRule := "listener over the stub kernel in plain and batch mode, backlog 1..8, optional accept filter on the first payload byte; <=5 remote sockets sending tagged datagrams with gaps 0..5ms; acceptor, one reader per accepted connection (closing after k reads or reading until error), racy closers for connections and listener, kernel faults (drop/duplicate/delay-reorder), injected socket read error. Non-trivial: >=2 workers and >=1 context switch; distinct = schedule hash"
+		Rule: "stream and packet flavours; per end a reader and a writer issuing <=4 operations each with contexts that are background, already cancelled, cancelled by a canceller worker after 0..1ms, or WithTimeout on the fake clock, optionally cancelled by the caller once the call returned (defer cancel()); zero-length reads and writes; optional second reader/writer per end; pipe capacities 1..4096 (back-pressure, partial writes), short reads; one injected SetDeadline failure. Non-trivial: >=2 workers and >=1 context switch; distinct = schedule hash"})
+	udpRule := "listener over the stub kernel in plain and batch mode, backlog 1..8, optional accept filter on the first payload byte; <=5 remote sockets sending tagged datagrams with gaps 0..5ms; acceptor, one reader per accepted connection (closing after k reads or reading until error), racy closers for connections and listener, repeated Close, lagging readers, datagram sizes around the connection ring (2 KiB) and the receive MTU, kernel faults (drop/duplicate/delay-reorder), injected socket read error, an unsendable last write (oversize or failing send) before everything is closed. Non-trivial: >=2 workers and >=1 context switch; distinct = schedule hash"
 	udpPkgs := []string{"udp", "packetio", "deadline", "zzverif/simnet"}
 	def("C11", &propCfg{Dir: "c11", Pkgs: udpPkgs,
 		Components: []string{"real: udp listener/Conn/BatchConn, packetio.Buffer, deadline.Deadline", "stub: simnet UDP kernel (port table, receive queues, recvmmsg/sendmmsg-style batch calls, fault plan); it records what ReadFrom/ReadBatch returned, which is the arrival order the property is stated against"},
@@ -110,8 +110,8 @@ func init() {
 	def("C13", &propCfg{Pkgs: []string{"vnet", "deadline"},
 		Components: []string{"real: vnet.Router address assignment (AddNet/AddRouter), vnet.Net bind paths (ListenUDP/ListenPacket/Dial/DialUDP/Close), conn map, datagram demultiplexing through a started router", "adaptor: reads a child router's WAN addresses", "oracle: reference model (set of held addresses; set of open sockets with wildcard rules); porcupine for concurrent bind histories"},
 		Assumptions: append([]string{"duplicate static addresses supplied by the user are not generated (left unconstrained by the property)"}, stdAssume...),
-		Rule: "(a) assignment histories: 1-14 (occasionally >250) NICs/child routers with distinct static addresses inside/outside the automatic range and outside the subnet, automatic assignment, subnets /16 /24 /28; (b) bind histories by 1-3 concurrent workers with specific, wildcard, loopback and foreign addresses, explicit and zero ports, closes and probe datagrams; occasionally a 1000-port sweep of the ephemeral range. Non-trivial: >=2 NICs / >=3 operations / >=1 context switch; distinct = hash of the history or schedule hash"})
-	natRule := "end-to-end topology: root router with remote hosts (two sockets per host: same IP, other port), one NAT'd LAN router (3x3 mapping/filtering behaviours, lifetimes 50ms/1s/30s, or 1:1 mode with 1-3 IP pairs) with internal hosts; histories of 2-60 outbound / inbound (to learned live or expired external addresses, never-allocated ports, unpaired IPs) / idle (around the lifetime: L-1ms, L, L+1ms, 0.6L, 2L) events; occasionally 16385 mappings first. Non-trivial: >=2 mappings created or inbound datagrams judged (or 1:1 mode); distinct = hash of configuration and history"
+		Rule: "(a) assignment histories: 1-14 (occasionally >250) NICs/child routers with distinct static addresses inside/outside the automatic range and outside the subnet, automatic assignment, subnets /16 /24 /28; (b) bind histories by 1-3 concurrent workers with specific, wildcard, loopback, foreign and IPv6 (::, ::1) addresses, explicit and zero ports, closes and probe datagrams; occasionally a 1000-port sweep of the ephemeral range. Non-trivial: >=2 NICs / >=3 operations / >=1 context switch; distinct = hash of the history or schedule hash"})
+	natRule := "end-to-end topology: root router with remote hosts (two sockets per host: same IP, other port), one NAT'd LAN router (3x3 mapping/filtering behaviours, lifetimes 50ms/1s/30s, or 1:1 mode with 1-3 IP pairs) with internal hosts; histories of 2-60 outbound / inbound (to learned live or expired external addresses, never-allocated ports, unpaired IPs) / idle (around the lifetime: L-1ms, L, L+1ms, 0.6L, 2L) events; two sets of remote addresses (textual prefixes of each other / equal low 16 bits), optional second router address; occasionally 16385 mappings first (port reuse, re-activation, a refused flow sending twice while every port is held). Non-trivial: >=2 mappings created or inbound datagrams judged (or 1:1 mode); distinct = hash of configuration and history"
 	natPkgs := []string{"vnet", "deadline"}
 	def("C02", &propCfg{Dir: "c02", Pkgs: natPkgs, Components: []string{"real: vnet routers, NAT, hosts, sockets (router goroutines are workers)", "oracle: reference NAT model that learns external ports from observation; mapping liveness three-valued around the lifetime (interval reasoning)"},
 		Assumptions: append([]string{"reuse of an expired external port is left open", "a mapping created by a datagram to an unbound remote port has an unobserved external address; while such a mapping may be live, 'no mapping owns this address' is not asserted"}, stdAssume...), Rule: natRule})
@@ -120,11 +120,11 @@ func init() {
 	def("C01", &propCfg{Pkgs: []string{"vnet", "deadline"},
 		Components: []string{"real: vnet routers (one forwarding goroutine each, a worker), NATs of every mode, hosts, sockets, chunk queues; nothing in vnet is stubbed", "oracle: reference routing model (routing-table walk per hop, host demultiplexing with wildcard and connected-socket rules, composed NAT chain identity for source consistency, per-level permission sets for inbound admission)"},
 		Assumptions: append([]string{"NAT lifetimes are longer than the run (expiry is C02/C03's subject)", "datagrams to a NAT router's own external address are judged only in phase 2, from sockets on the network that observed the address", "in runs with router stop/start, a bounded queue or a dropping chunk filter 'no loss' is not asserted (integrity, at-most-once, only-its-socket, order and source still are)", "datagrams shorter than 12 bytes carry no tag: they are checked for 'arrives only where such a datagram was sent', not for loss or duplication"}, stdAssume...),
-		Rule: "topologies: root + 1-4 (thorough: 1-7) LAN routers nested to depth 3 with random NAT type (3x3 NAPT or 1:1), MinDelay/MaxJitter/QueueSize/chunk filter options; 1-2 hosts per router with automatic/one/two addresses; specific, wildcard and Dial-connected sockets; 3-120 datagrams of 0..1500 bytes from concurrent senders to bound sockets, unbound ports, unroutable and unheld addresses and loopback; then replies and unsolicited datagrams to observed translated sources; fault class: router stop/start during traffic. Non-trivial: >=2 workers and >=1 context switch; distinct = schedule hash"})
+		Rule: "topologies: root + 1-4 (thorough: 1-7) LAN routers nested to depth 3 with random NAT type (3x3 NAPT or 1:1), MinDelay/MaxJitter/QueueSize/chunk filter options; 1-2 hosts per router with automatic/one/two addresses; specific, wildcard and Dial-connected sockets; 3-120 datagrams of 0..1500 bytes from concurrent senders to bound sockets, unbound ports, unroutable and unheld addresses and loopback; then replies, unsolicited, hairpinned (from behind the same NAT) and plain datagrams to observed translated sources / sockets; occasionally a socket nobody reads while 1000-1100 datagrams are sent to it (receive queue 1024), or a socket closed, re-bound and closed again during traffic; fault class: router stop/start during traffic. Non-trivial: >=2 workers and >=1 context switch; distinct = schedule hash"})
 	def("C19", &propCfg{Race: true,
 		Components: []string{"real: packetio, deadline, dpipe, vnet (sockets, routers, filters, network construction), udp (over the simnet stub), all built with -race", "oracle: the Go race detector; the controller's own synchronisation is hidden from it (RaceDisable around the park/resume hand-over and simrt's internal locks, //go:norace bookkeeping), so the happens-before relation it sees is the program's"},
 		Assumptions: append([]string{"a report counts when both racing accesses are in pion/transport code, or one is there and the other in the generated client program", "the race detector reports each race once per process, so failures are replayed (not minimised) in a fresh process"}, stdAssume...),
-		Rule: "client programs generated from operations documented or tested as concurrency-safe: packet buffer, deadline, dpipe, vnet sockets/router/host API under traffic, independent networks built in parallel, TokenBucketFilter.Set under traffic, DelayFilter, udp listener and connections; 2-4 client workers with 2-8 operations each plus the packages' own goroutines. Non-trivial: >=2 workers and >=1 context switch; distinct = schedule hash"})
+		Rule: "client programs generated from operations documented or tested as concurrency-safe: packet buffer, deadline, dpipe, vnet sockets/router/host API under traffic, independent networks built in parallel, TokenBucketFilter.Set under traffic, DelayFilter, independent loss/token-bucket filter instances per client, udp listener and connections (also batch mode); 2-4 client workers with 2-8 operations each plus the packages' own goroutines. Non-trivial: >=2 workers and >=1 context switch; distinct = schedule hash"})
 	def("C09", &propCfg{
 		Components:  []string{"real: deadline.Deadline over simrt.Timer (AfterFunc callbacks are workers parked at their entry, so a dispatched-but-unrun callback can be overtaken by further Set calls)", "stub: none"},
 		Assumptions: stdAssume,
